@@ -1,5 +1,5 @@
 """C32 prelude string and list functions match their documentation and always terminate."""
-REG_DRAFT = dict(
+REG = dict(
     engine='E1-enum',
     technique='bounded-exhaustive enumeration of argument vectors for every prelude string/list function, executed on the real interpreter, compared with a reference implementation written from the doc comments',
     text="For each of 37 prelude functions/methods (17 String, 14 List, range, sort_nums, min, max, 2 Option) every argument vector over: receiver strings of length <=3 (quick) | <=4 (thorough) and needles/separators/prefixes of length <=2 (incl. \"\") over {a, b, ',', space, e-acute} (plus LF for lines and the trim family); lists of length <=3 | <=4 over {0, 1, -1} (sort_nums also MAX/MIN, join/enumerate/index_of also lists of strings); ints from {-1,0,1,2,3,MAX,MIN} (+4,5,MAX-1,MIN+1 thorough); two closures each for map/filter. Each call runs on the real interpreter; string_repr of the result must equal the reference (py/gvlib/ref_prelude.py, one line per function, from the doc comment; character offsets as documented). Every call must end within 100k ticks. Fully exhaustive over these pools.",
